@@ -25,6 +25,7 @@ type Obl struct {
 	Replay  map[string]string
 	SrcLine string
 	Subs    []SubGoal // per-return sub-goals of a postcondition (all must be discharged)
+	Splits  [][]T     // optional case analysis of the path (one query per case plus a coverage query)
 }
 
 type SubGoal struct {
